@@ -58,6 +58,9 @@ enum SigFault {
     /// the hint section (kinds 0..3) or the whole signature (kinds 4..7) reads back as a memory-test
     /// pattern: 0xAA, 0x55, address-in-data (low byte of the absolute offset), ramp from 0
     Pattern(u8),
+    /// double fault: the hint section reads back as a memory-test pattern (2 = address-in-data, 3 = ramp)
+    /// AND one of its bytes (offset within the hint section) is stuck at a value
+    PatternStuck(u8, usize, u8),
 }
 
 impl SigFault {
@@ -69,6 +72,7 @@ impl SigFault {
             SigFault::Dup(..) => "byte_duplicate",
             SigFault::MultiBit(_) => "multi_bit_rot",
             SigFault::Pattern(_) => "test_pattern_fill",
+            SigFault::PatternStuck(..) => "pattern_fill_plus_stuck_byte",
         }
     }
     fn to_json(&self) -> Value {
@@ -79,6 +83,7 @@ impl SigFault {
             SigFault::Dup(a, b) => json!({"kind":"byte_duplicate","hint_offsets":[a, b]}),
             SigFault::MultiBit(b) => json!({"kind":"multi_bit_rot","bits":b}),
             SigFault::Pattern(k) => json!({"kind":"test_pattern_fill","pattern":k}),
+            SigFault::PatternStuck(k, a, v) => json!({"kind":"pattern_fill_plus_stuck_byte","pattern":k,"hint_offset":a,"value":v}),
         }
     }
     fn apply(&self, info: &SetInfo, sig: &mut [u8]) {
@@ -92,6 +97,10 @@ impl SigFault {
                 for b in bits {
                     sig[b / 8] ^= 1 << (b % 8);
                 }
+            }
+            SigFault::PatternStuck(k, a, v) => {
+                SigFault::Pattern(*k).apply(info, sig);
+                sig[hs + a] = *v;
             }
             SigFault::Pattern(k) => {
                 let lo = if *k < 4 { hs } else { 0 };
@@ -177,6 +186,14 @@ fn faults_for(info: &SetInfo, seed: u64, u: &Unit) -> Vec<SigFault> {
     }
     for k in 0..8u8 {
         v.push(SigFault::Pattern(k));
+    }
+    // two independent faults: a pattern-filled hint section in which one count byte is stuck
+    for k in [2u8, 3] {
+        for a in info.omega..hl {
+            for val in [0x00u8, 0x01, 0x02, 0x10, info.omega as u8, 0x7F, 0xFF] {
+                v.push(SigFault::PatternStuck(k, a, val));
+            }
+        }
     }
     for a in 0..hl - 1 {
         v.push(SigFault::Swap(a, a + 1));
